@@ -167,6 +167,13 @@ macro_rules! trace_mod {
             if c.iter().step_by(2).map(|(k, _)| k.tok).collect::<Vec<_>>() != lru_first.iter().step_by(2).map(|x| x.1).collect::<Vec<_>>() { api.push("iter_nth"); }
             if c.iter().fold(0u64, |a, (k, _)| a.wrapping_mul(31).wrapping_add(k.tok)) != lru_first.iter().fold(0u64, |a, x| a.wrapping_mul(31).wrapping_add(x.1)) { api.push("iter_fold"); }
             if c.iter().rfold(0u64, |a, (k, _)| a.wrapping_mul(31).wrapping_add(k.tok)) != lru_first.iter().rfold(0u64, |a, x| a.wrapping_mul(31).wrapping_add(x.1)) { api.push("iter_fold"); }
+            // an exhausted iterator stays exhausted for every way of asking
+            { let mut it = c.iter(); while it.next().is_some() {} if it.next_back().is_some() || it.nth(0).is_some() || it.last().is_some() { api.push("iter_last"); } }
+            { let mut it = c.iter(); while it.next().is_some() {} if it.count() != 0 { api.push("iter_count"); } }
+            { let mut it = c.values(); while it.next().is_some() {} if it.fold(0usize, |a, _| a + 1) != 0 { api.push("iter_fold"); } }
+            { let mut it = c.keys(); while it.next_back().is_some() {} if it.next().is_some() || it.nth_back(0).is_some() || it.size_hint().0 != 0 || it.last().is_some() { api.push("iter_last"); } }
+            { let mut it = c.values(); for _ in 0..nodes.len() { it.next(); } if it.rev().last().is_some() { api.push("iter_last"); } }
+            { let mut it = c.iter(); it.next_back(); if it.last().map(|(k, _)| k.tok) != (if nodes.len() >= 2 { Some(lru_first[nodes.len() - 2].1) } else { None }) { api.push("iter_last"); } }
             if c.len() != nodes.len() || c.len() != g.len { api.push("len"); }
             if c.is_empty() != nodes.is_empty() { api.push("is_empty"); }
             if c.current_size() != g.current_size || c.max_size() != g.max_size || c.capacity() != g.capacity { api.push("scalars"); }
@@ -211,7 +218,11 @@ macro_rules! trace_mod {
     /// A run l..lL that covers exactly what is left is executed as last(), a final run c..c that covers exactly what is left
     /// as count(): they must behave like the single front steps they stand for (the model reads l as f, L as F, c as f).
     /// `len` = number of entries the iterator started with.
-    pub fn run_pat<I: DoubleEndedIterator>(it: &mut I, pat: &str, len: usize, f: &mut dyn FnMut(Option<I::Item>)) {
+    /// The iterator is owned here so that the by-value trait methods (last, count, fold, collect) are called on the
+    /// iterator type itself — through `&mut I` they would resolve to the default implementations and an override on the
+    /// cache's iterator types would never run. Returns the iterator unless one of those calls consumed it.
+    pub fn run_pat<I: DoubleEndedIterator>(it: I, pat: &str, len: usize, f: &mut dyn FnMut(Option<I::Item>)) -> Option<I> {
+        let mut it = it;
         let cs: Vec<char> = pat.chars().collect();
         let mut i = 0;
         let mut used = 0usize;
@@ -220,22 +231,27 @@ macro_rules! trace_mod {
             let left = len.saturating_sub(used);
             if ch == 'F' { f(it.next()); i += 1; used += 1; continue; }
             if ch == 'B' { f(it.next_back()); i += 1; used += 1; continue; }
-            if ch == 'L' { if left == 1 { f(it.by_ref().last()); } else { f(it.next()); } i += 1; used += 1; continue; }
+            if ch == 'L' {
+                if left <= 1 && i + 1 == cs.len() { f(it.last()); return None; }
+                f(it.next()); i += 1; used += 1; continue;
+            }
             let mut j = i; while j < cs.len() && cs[j] == ch { j += 1; }
             let k = j - i;
             match ch {
                 'l' if j < cs.len() && cs[j] == 'L' => {
-                    if k + 1 == left { f(it.by_ref().last()); } else { f(it.nth(k)); }
+                    if k + 1 == left && j + 1 == cs.len() { f(it.last()); return None; }
+                    f(it.nth(k));
                     used += k + 1; i = j + 1;
                 }
                 'c' => {
                     if k == left && j == cs.len() {
                         // count(), fold() and collect() (size_hint-driven preallocation, then next()) must all see exactly what is left
                         let (lo, hi) = it.size_hint();
-                        let n = match k % 3 { 0 => it.by_ref().count(), 1 => it.by_ref().fold(0usize, |a, x| { drop(x); a + 1 }), _ => { let v: Vec<I::Item> = it.by_ref().collect(); let n = v.len(); drop(v); n } };
+                        let n = match k % 3 { 0 => it.count(), 1 => it.fold(0usize, |a, x| { drop(x); a + 1 }), _ => { let v: Vec<I::Item> = it.collect(); let n = v.len(); drop(v); n } };
                         if n != k || lo > k || hi.map_or(false, |h| h < k) { f(None); f(None); f(None); }
+                        return None;
                     }
-                    else { for _ in 0..k { drop(it.next()); } }
+                    for _ in 0..k { drop(it.next()); }
                     used += k; i = j;
                 }
                 'f' | 'b' | 'l' => {
@@ -251,6 +267,7 @@ macro_rules! trace_mod {
                 _ => { i += 1; }
             }
         }
+        Some(it)
     }
 
     pub fn exec(w: &mut World, slot: usize, op: &Op) -> StepOut {
@@ -279,15 +296,15 @@ macro_rules! trace_mod {
                         obs_slot = None;
                         let mut items = String::new();
                         match kind {
-                            0 => { let n0 = c.len(); let mut it = c.into_iter();
-                                   run_pat(&mut it, pat, n0, &mut |x| match x { None => items.push_str("none,"), Some((k, v)) => { write!(items, "{},", kvs(&k, &v)).unwrap(); std::mem::forget((k, v)); } });
-                                   if *forget { std::mem::forget(it); } }
-                            1 => { let n0 = c.len(); let mut it = c.into_keys();
-                                   run_pat(&mut it, pat, n0, &mut |x| match x { None => items.push_str("none,"), Some(k) => { write!(items, "{},", ks(&k)).unwrap(); std::mem::forget(k); } });
-                                   if *forget { std::mem::forget(it); } }
-                            _ => { let n0 = c.len(); let mut it = c.into_values();
-                                   run_pat(&mut it, pat, n0, &mut |x| match x { None => items.push_str("none,"), Some(v) => { write!(items, "{},", vsk(&v)).unwrap(); std::mem::forget(v); } });
-                                   if *forget { std::mem::forget(it); } }
+                            0 => { let n0 = c.len(); let it = c.into_iter();
+                                   let it = run_pat(it, pat, n0, &mut |x| match x { None => items.push_str("none,"), Some((k, v)) => { write!(items, "{},", kvs(&k, &v)).unwrap(); std::mem::forget((k, v)); } });
+                                   if *forget { if let Some(it) = it { std::mem::forget(it); } } }
+                            1 => { let n0 = c.len(); let it = c.into_keys();
+                                   let it = run_pat(it, pat, n0, &mut |x| match x { None => items.push_str("none,"), Some(k) => { write!(items, "{},", ks(&k)).unwrap(); std::mem::forget(k); } });
+                                   if *forget { if let Some(it) = it { std::mem::forget(it); } } }
+                            _ => { let n0 = c.len(); let it = c.into_values();
+                                   let it = run_pat(it, pat, n0, &mut |x| match x { None => items.push_str("none,"), Some(v) => { write!(items, "{},", vsk(&v)).unwrap(); std::mem::forget(v); } });
+                                   if *forget { if let Some(it) = it { std::mem::forget(it); } } }
                         }
                         return format!("items:{}", items);
                     }
@@ -343,18 +360,18 @@ macro_rules! trace_mod {
                     Iter(kind, pat) => {
                         let mut items = String::new();
                         match kind {
-                            0 => { let mut it = c.iter(); run_pat(&mut it, pat, c.len(), &mut |x| match x { None => items.push_str("none,"), Some((k, v)) => write!(items, "{},", kvs(k, v)).unwrap() }); }
-                            1 => { let mut it = c.keys(); run_pat(&mut it, pat, c.len(), &mut |x| match x { None => items.push_str("none,"), Some(k) => write!(items, "{},", ks(k)).unwrap() }); }
-                            _ => { let mut it = c.values(); run_pat(&mut it, pat, c.len(), &mut |x| match x { None => items.push_str("none,"), Some(v) => write!(items, "{},", vsk(v)).unwrap() }); }
+                            0 => { run_pat(c.iter(), pat, c.len(), &mut |x| match x { None => items.push_str("none,"), Some((k, v)) => write!(items, "{},", kvs(k, v)).unwrap() }); }
+                            1 => { run_pat(c.keys(), pat, c.len(), &mut |x| match x { None => items.push_str("none,"), Some(k) => write!(items, "{},", ks(k)).unwrap() }); }
+                            _ => { run_pat(c.values(), pat, c.len(), &mut |x| match x { None => items.push_str("none,"), Some(v) => write!(items, "{},", vsk(v)).unwrap() }); }
                         }
                         format!("items:{}", items)
                     }
                     Drain(pat, forget) => {
                         let mut items = String::new();
                         let n0 = c.len();
-                        let mut d = c.drain();
-                        run_pat(&mut d, pat, n0, &mut |x| match x { None => items.push_str("none,"), Some((k, v)) => { write!(items, "{},", kvs(&k, &v)).unwrap(); std::mem::forget((k, v)); } });
-                        if *forget { std::mem::forget(d); }
+                        let d = c.drain();
+                        let d = run_pat(d, pat, n0, &mut |x| match x { None => items.push_str("none,"), Some((k, v)) => { write!(items, "{},", kvs(&k, &v)).unwrap(); std::mem::forget((k, v)); } });
+                        if *forget { if let Some(d) = d { std::mem::forget(d); } }
                         format!("items:{}", items)
                     }
                     Reserve(n) => { c.reserve(*n); "unit".into() }
@@ -456,6 +473,7 @@ macro_rules! trace_mod {
         let mut p: String = (0..n).map(|_| match rng.below(10) { 0 => 'f', 1 => 'b', x if x % 2 == 0 => 'F', _ => 'B' }).collect();
         // sometimes finish with last() or count() over exactly what is left
         let left = len_hint.saturating_sub(p.len());
+        if left == 0 && rng.below(5) == 0 { p.push('L'); }
         if left >= 1 && left <= 40 {
             match rng.below(12) { 0 => { for _ in 1..left { p.push('l'); } p.push('L'); }, 1 => { for _ in 0..left { p.push('c'); } }, _ => {} }
         }
